@@ -213,9 +213,11 @@ class MALA(ULA): # Refactor to Proposal-based sampler?
         log_alpha = min(0, log_target_ratio + log_prop_ratio)
 
         # accept/reject with Metropolis
+        # (a ratio that is not a number, e.g. because the gradient at the proposal is nan, never accepts: min(0, nan) is 0)
         acc = 0
         log_u = np.log(np.random.rand())
         if (log_u <= log_alpha) and \
+           (not np.isnan(log_target_ratio + log_prop_ratio)) and \
            (not np.isnan(target_eval_star)) and \
            (not np.isinf(target_eval_star)):
             self.current_point = x_star
